@@ -557,9 +557,9 @@ func c10CommittedValue(fn *ssa.Function, v ssa.Value, live bool) string {
 	leaf := func(x ssa.Value, pred *ssa.BasicBlock) string {
 		p := Path(x)
 		switch {
-		case glob("*.HW", p) && !strings.Contains(p, "("):
+		case glob("*.HW", p) && (!strings.Contains(p, "(") || glob("*ChannelStore.Load(*)#0.HW", p)):
 			return ""
-		case glob("*.LEO", p) && !strings.Contains(p, "("):
+		case glob("*.LEO", p) && (!strings.Contains(p, "(") || glob("*ChannelStore.Load(*)#0.LEO", p)):
 			if pred == nil {
 				return "LEO used as the committed bound unconditionally"
 			}
